@@ -18,7 +18,7 @@ IsEv(e) == l <= Len(Rec) /\ R.ev = e /\ l' = l + 1
 
 TReset ==
   /\ IsEv("reset")
-  /\ IF R.kind = "parser" /\ R.parser \in {"cnf", "wcnf", "gcnf"}
+  /\ IF R.kind = "parser" /\ R.parser \in {"cnf", "wcnf", "gcnf", "log"}
        THEN /\ active' = TRUE
             /\ vis' = SubSeq(R.input, 1, R.limit) /\ faulty' = R.faulty /\ kind' = R.parser /\ lit' = R.lit
             /\ ignoreHeader' = R.flag
@@ -67,11 +67,20 @@ TRetClause ==
        /\ done' = (n[1][1] # "some")
   /\ UNCHANGED <<vis, faulty, kind, lit, ignoreHeader, active, delivered, exact>>
 
+TRetLog ==
+  /\ active /\ ~done /\ IsEv("pret") /\ R.fn = "parse_log"
+  /\ \E n \in {ParseLog} :
+       /\ IF n[1][1] = "ok" THEN R.res = "ok" /\ R.item = n[1][2] ELSE ErrMatches(n[1][2])
+       /\ Economy(n[2])
+       /\ ps' = n[2] /\ pc' = pc
+       /\ done' = TRUE
+  /\ UNCHANGED <<vis, faulty, kind, lit, ignoreHeader, active, delivered, exact>>
+
 TInit ==
   /\ l = 1 /\ active = FALSE /\ delivered = 0 /\ exact = FALSE /\ done = FALSE
   /\ vis = <<>> /\ faulty = FALSE /\ kind = "cnf" /\ lit = "i32" /\ ignoreHeader = FALSE
   /\ ps = <<0, 1, 0, 0, 0>> /\ pc = <<0, <<0>>, FALSE, <<0>>, TRUE, <<0>>, TRUE, FALSE>>
-TNext == TReset \/ TSkip \/ TSrc \/ TRetNew \/ TRetClause
+TNext == TReset \/ TSkip \/ TSrc \/ TRetNew \/ TRetClause \/ TRetLog
 TSpec == TInit /\ [][TNext]_tvars
 
 Accepted ==
